@@ -1,5 +1,6 @@
 (** C16 — Issued JWTs verify against the published key set and carry the system
-    claims.  Property theorems only; proofs are in C16/Proofs.v and C16/LocksProofs.v.
+    claims.  Property theorems only; proofs are in C16/Proofs.v, C16/LocksProofs.v
+    and C16/ConcProofs.v (+ ConcExamples.v).
 
     Vocabulary (C16/Model.v = the Go code as it is, C16/Spec.v = the specification):
       [load cfg_kid file]          jwtSigner.load up to the swap: Ok new-fields | Err | Panic
@@ -8,9 +9,11 @@
       [spec_accept cfg_kid file]   the usable store and its active entry (by key id, else the first)
       [run_ok] / [run_prop]        the full specification of a run / what the property statement fixes of it
       [guard_F1], [guard_F2]       the inputs of the (repaired) findings C16-F1, C16-F2
+      [crun fx c sched (cinit st calls)]   (C16/Conc.v) any calls of Execute, step by step in any order, with reloads in between
     Keys are indices into a pool; "signed by Priv k verifies under Pub k" and the
     parsing of PEM/X.509/JSON are trusted (see the level note). *)
-From HV Require Import Base.Prelude C16.Model C16.Spec C16.Proofs C16.Locks C16.LocksProofs.
+From HV Require Import Base.Prelude C16.Model C16.Spec C16.Proofs C16.Locks C16.LocksProofs
+  C16.Conc C16.ConcProofs C16.ConcExamples.
 Open Scope string_scope.
 
 (** sub, iss, iat, nbf, exp, jti are the signer's, whatever the custom claims say;
@@ -239,3 +242,122 @@ Theorem C16_torn_skeleton_refuted :
      (init 0 (threads_of torn_skeleton [("Sign", 0); ("load", 1)]))) = false.
 Proof. exact torn_refuted. Qed.
 Print Assumptions C16_torn_skeleton_refuted.
+
+Open Scope list_scope.
+
+(** ------------------------------------------------------------------------------------------------
+    CONCURRENT EXECUTES (C16/Conc.v).  Any number of calls of Execute — each: Hash() section, cache
+    lookup, on a miss signWithHash() section, cache store under the key of the JWK signed with, return —
+    interleaved in ANY order with any number of key-store reloads (accepted or rejected), JWKS reads and
+    cache-clock advances, at the granularity of critical sections ([crun fx_all c sched (cinit st0 calls)];
+    [c] = the catalogue configuration, [st0] = what the first load installed, a call = effective
+    configuration of the catalogue finalizer or a variant + request + the instant Sign reads).
+
+    Every token a call returns belongs to one of that call's own critical sections: the schedule contains a
+    step of call i itself — its Hash() section (it stood at [PInit]) or its signWithHash() section ([PMiss]),
+    i.e. a moment between its start and its return — such that, with [lin] the signer's fields at that
+    moment, the token is exactly what Sign makes from [lin] for the request of call i ([made]; so
+    C16_system_claims_win, C16_exp_is_ttl_later, C16_header_names_active_key apply to it, fresh or reused):
+    it is signed with the key active at that moment, carries its key id and algorithm, verifies against
+    the key set published at that moment, and against the key set published at every later moment up to the
+    next successful reload (in particular at the moment of return if no reload succeeded in between;
+    C16_conc_return_after_reload shows that this proviso is needed). *)
+Theorem C16_conc_token_of_own_section : forall c st0 calls sched i t,
+  loaded c st0 ->
+  result i (crun fx_all c sched (cinit st0 calls)) = Some (Ok t) ->
+  exists s1 s2 cl p,
+    sched = s1 ++ SThread i :: s2 /\ nth_error calls i = Some cl /\
+    pc_of i (crun fx_all c s1 (cinit st0 calls)) = Some p /\ (p = PInit \/ exists k0, p = PMiss k0) /\
+    let lin := g_st (crun fx_all c s1 (cinit st0 calls)) in
+    loaded c lin /\ made lin cl t /\
+    t_key t = s_key lin /\ t_kid t = j_kid (s_jwk lin) /\ t_alg t = j_alg (s_jwk lin) /\
+    verifies t (published c lin) = true /\
+    forall s2a s2b, s2 = s2a ++ s2b -> quiet c s2a = true ->
+      verifies t (published c (g_st (crun fx_all c (s1 ++ SThread i :: s2a) (cinit st0 calls)))) = true.
+Proof. intros c. exact (returned_token_linearizes fx_all eq_refl eq_refl c). Qed.
+Print Assumptions C16_conc_token_of_own_section.
+
+(** no cross-state cache hit: a token found in the cache by call i under the key k0 of its Hash() section
+    was made by the signWithHash() section of some call j at an earlier moment, filed under exactly k0 = the
+    key of the signer state of THAT moment, and that state has the same key id, algorithm and key as the one
+    call i's Hash() section read; issuer, ttl, claims template and request are call i's as well *)
+Theorem C16_conc_hit_same_state : forall c st0 calls s i k0 t,
+  loaded c st0 ->
+  let G x := crun fx_all c x (cinit st0 calls) in
+  pc_of i (G s) = Some (PKeyed k0) -> pc_of i (G (s ++ [SThread i])) = Some (PRet t) ->
+  exists j sa sb k0' sh sh' cl cl',
+    s = sa ++ SThread j :: sb /\ nth_error calls j = Some cl' /\
+    pc_of j (G sa) = Some (PMiss k0') /\ pc_of j (G (sa ++ [SThread j])) = Some (PSigned k0 t) /\
+    s = sh ++ SThread i :: sh' /\ nth_error calls i = Some cl /\ pc_of i (G sh) = Some PInit /\
+    k0 = key_of fx_all (cl_cfg cl') (g_st (G sa)) (cl_req cl') /\
+    k0 = key_of fx_all (cl_cfg cl) (g_st (G sh)) (cl_req cl) /\
+    sig_id (g_st (G sa)) = sig_id (g_st (G sh)) /\ cl_req cl' = cl_req cl /\
+    issuer (cl_cfg cl') = issuer (cl_cfg cl) /\ ttl_of (cl_cfg cl') = ttl_of (cl_cfg cl) /\
+    c_claims (cl_cfg cl') = c_claims (cl_cfg cl).
+Proof. intros c. exact (hit_same_state fx_all eq_refl eq_refl c). Qed.
+Print Assumptions C16_conc_hit_same_state.
+
+(** the invariant behind both, for every reachable configuration: the signer's fields are those of one
+    loaded file; every cache entry is a logged token filed under the key of the state and call it was made
+    under ([made_ok]); every call in flight holds a key / token of a state one of its own sections read *)
+Theorem C16_conc_invariant : forall c st0 calls sched,
+  loaded c st0 -> cinv fx_all c (crun fx_all c sched (cinit st0 calls)).
+Proof. intros c st0 calls sched L. apply (crun_inv fx_all eq_refl eq_refl c), cinit_inv, L. Qed.
+Print Assumptions C16_conc_invariant.
+
+(** rejected reloads change nothing: a schedule and the same schedule without its rejected reloads end in
+    the same configuration (every call's outcome, cache, signer fields, every JWKS answer) *)
+Theorem C16_conc_rejected_reloads_unobservable : forall fx c s g,
+  crun fx c (effective c s) g = crun fx c s g.
+Proof. exact rejected_reloads_unobservable. Qed.
+Print Assumptions C16_conc_rejected_reloads_unobservable.
+
+(** the sequential model's Execute ([exec], the subject of C16_run_meets_spec) is the machine running one
+    call: Hash(), Get, the reloads that land there, signWithHash(), Set, return *)
+Theorem C16_conc_sequential_is_exec : forall fx c ce w q now mids,
+  c_keyid ce = c_keyid c ->
+  let cl := {| cl_cfg := ce; cl_req := q; cl_now := now |} in
+  let g := crun fx c ([SThread 0; SThread 0] ++ map SReload mids ++ [SThread 0; SThread 0; SThread 0])
+                (conf_of w [new_thread cl] []) in
+  world_of g = fst (exec fx ce w q now mids) /\ result 0 g = Some (snd (exec fx ce w q now mids)).
+Proof. exact conc_sequential_is_exec. Qed.
+Print Assumptions C16_conc_sequential_is_exec.
+
+(** examples (vm_compute): four calls around a reload, a roll-back, a rejected reload and another reload —
+    the call overtaken by the reload returns the new key's token, the next call under the old store does not
+    get it from the cache, later calls reuse each the token of their own state *)
+Theorem C16_conc_nonvacuous :
+  exists t0 t1,
+    map (fun i => result i (crun fx_all f2_cfg ex_sched (cinit (ex_st ex_A) ex_calls))) [0; 1; 2; 3] =
+      [Some (Ok t0); Some (Ok t1); Some (Ok t1); Some (Ok t0)] /\
+    t_kid t0 = "key-b" /\ t_key t0 = Priv (r_key (f2_entry 8 "key-b")) /\
+    t_kid t1 = "key-a" /\ t_key t1 = Priv (r_key (f2_entry 7 "key-a")) /\
+    rev (g_jwks (crun fx_all f2_cfg ex_sched (cinit (ex_st ex_A) ex_calls))) =
+      [[spec_jwk (f2_entry 7 "key-a")]; [spec_jwk (f2_entry 8 "key-b")]] /\
+    loaded f2_cfg (ex_st ex_A) /\ rejected f2_cfg ex_bad = true.
+Proof. exact conc_nonvacuous. Qed.
+Print Assumptions C16_conc_nonvacuous.
+
+(** C16-F2 as it was, with two calls: the second call, during which key-a is active throughout, is handed
+    the first call's key-b token *)
+Theorem C16_conc_F2_pinned_refuted :
+  exists t0,
+    let g := crun fx_F1_only f2_cfg ex_sched (cinit (ex_st ex_A) ex_calls) in
+    result 0 g = Some (Ok t0) /\ result 1 g = Some (Ok t0) /\ t_kid t0 = "key-b" /\
+    verifies t0 (published f2_cfg (ex_st ex_A)) = false /\
+    forallb (fun n => jwk_eqb (s_jwk (g_st (crun fx_F1_only f2_cfg (firstn n ex_sched) (cinit (ex_st ex_A) ex_calls))))
+                              (s_jwk (ex_st ex_A))) (seq 8 7) = true.
+Proof. exact conc_F2_pinned_refuted. Qed.
+Print Assumptions C16_conc_F2_pinned_refuted.
+
+(** a reload between a call's Sign section and its return: the returned token does not verify against the
+    key set published at the moment of return (it does against the one of the Sign section's moment) *)
+Theorem C16_conc_return_after_reload :
+  exists t,
+    let sched := [SThread 0; SThread 0; SThread 0; SReload ex_B; SThread 0; SThread 0] in
+    let g := crun fx_all f2_cfg sched (cinit (ex_st ex_A) [ex_call "alice" 1000000000000]) in
+    result 0 g = Some (Ok t) /\ t_kid t = "key-a" /\
+    verifies t (published f2_cfg (g_st g)) = false /\
+    verifies t (published f2_cfg (g_st (crun fx_all f2_cfg (firstn 3 sched) (cinit (ex_st ex_A) [ex_call "alice" 1000000000000])))) = true.
+Proof. exact conc_return_after_reload. Qed.
+Print Assumptions C16_conc_return_after_reload.
